@@ -319,6 +319,9 @@ pub enum Extra<T: Sc> {
         observed: Vec<Result<(Snap, JacObs), String>>,
         /// the callers really were interleaved (shuttle threads), not run one after another
         overlapped: bool,
+        /// model-seam log position after the lone caller finished (the simultaneous callers'
+        /// events are log[ref_ev_to..ev_to])
+        ref_ev_to: usize,
     },
     /// accessors of the retained `FitResult`, queried after the fit
     ResultView {
@@ -627,12 +630,14 @@ impl<T: Sc, F: Factory<T>> Runner<T, F> {
             Op::ConcurrentQueries(k) => {
                 let p = self.subject.as_ref().unwrap();
                 let overlapped = self.ctl.overlap.load(std::sync::atomic::Ordering::SeqCst);
-                match guarded(|| concurrent_queries(p, (*k).max(1) as usize, overlapped)) {
-                    Ok((reference, observed)) => {
+                let ctl = self.ctl.clone();
+                match guarded(|| concurrent_queries(p, (*k).max(1) as usize, overlapped, &|| ctl.log_len())) {
+                    Ok((reference, observed, ref_ev_to)) => {
                         extra = Extra::Concurrent {
                             reference,
                             observed,
                             overlapped,
+                            ref_ev_to,
                         }
                     }
                     Err(e) => panic = Some(e),
@@ -683,7 +688,8 @@ pub fn concurrent_queries<T: Sc, M: Mdl<T>>(
     p: &AnyProb<T, M>,
     k: usize,
     overlapped: bool,
-) -> ((Snap, JacObs), Vec<Result<(Snap, JacObs), String>>) {
+    mark: &dyn Fn() -> usize,
+) -> ((Snap, JacObs), Vec<Result<(Snap, JacObs), String>>, usize) {
     let query = |p: &AnyProb<T, M>, i: usize| -> (Snap, JacObs) {
         if i % 2 == 1 {
             let j = jac_obs(p);
@@ -694,12 +700,13 @@ pub fn concurrent_queries<T: Sc, M: Mdl<T>>(
         }
     };
     let reference = query(p, 0);
+    let ref_ev_to = mark();
     let mut observed = vec![];
     if !overlapped {
         for i in 0..k {
             observed.push(Ok(query(p, i)));
         }
-        return (reference, observed);
+        return (reference, observed, ref_ev_to);
     }
     // shuttle threads need 'static closures: erase the borrow's lifetime; soundness rests on
     // the unconditional joins below (this frame neither returns nor unwinds before them)
@@ -734,7 +741,7 @@ pub fn concurrent_queries<T: Sc, M: Mdl<T>>(
     }
     observed.push(mine);
     observed.extend(rest);
-    (reference, observed)
+    (reference, observed, ref_ev_to)
 }
 
 /// direct calls on a bare model (C17)
